@@ -40,7 +40,13 @@ def do_import(prop, sdir, k):
     patch = os.path.join(sdir, "seed%s.diff" % k)
     demo = os.path.join(sdir, "demo%s.rs" % k)
     note = os.path.join(sdir, "note%s.txt" % k)
-    sid = "%s-s%s" % (prop, k)
+    tag = prop
+    if os.path.exists(note):
+        import re as _re
+        m_ = _re.search(r"PROPERTY:\s*(C\d\d)", open(note).read())
+        if m_:
+            tag, prop = prop, m_.group(1)
+    sid = "%s-%s-s%s" % (prop, tag, k) if tag != prop else "%s-s%s" % (prop, k)
     n = 1
     while os.path.exists(os.path.join(VERIF, "seeded", sid)):
         n += 1
@@ -58,9 +64,16 @@ def do_import(prop, sdir, k):
     rec["existing_suite_passes_no_default_features"] = ok2
     shutil.copy2(demo, os.path.join(SCR, "tests", "seed_demo.rs"))
     okd, outd = cargo_test(["--test", "seed_demo"])
+    cfg_args = []
+    if okd:
+        # maybe it only manifests without the default features
+        okd, outd = cargo_test(["--test", "seed_demo", "--no-default-features"])
+        if not okd:
+            cfg_args = ["--no-default-features"]
+            rec["manifests_only_with"] = "--no-default-features"
     rec["demo_fails_with_change"] = not okd
     sh(["git", "checkout", "--", "src"])
-    oku, outu = cargo_test(["--test", "seed_demo"])
+    oku, outu = cargo_test(["--test", "seed_demo"] + cfg_args)
     rec["demo_passes_without_change"] = oku
     rec["ran"] = ["git apply seed.diff", "cargo test --offline", "cargo test --offline --no-default-features",
                   "cargo test --offline --test seed_demo (with change: must fail)",
@@ -124,8 +137,81 @@ def run_checks(only=None):
         shutil.rmtree(SCR)
 
 
+def do_refactor(name, sdir, k):
+    """Archive a behaviour-preserving edit after confirming the suite passes, then require silence of all checks."""
+    patch = os.path.join(sdir, "refactor%s.diff" % k)
+    note = os.path.join(sdir, "rnote%s.txt" % k)
+    rid = "%s-r%s" % (name, k)
+    fresh()
+    r = sh(["git", "apply", "--check", patch])
+    if r.returncode != 0:
+        print(rid, "patch does not apply:", r.stderr[:200])
+        return 1
+    sh(["git", "apply", patch])
+    ok, out = cargo_test()
+    ok2, out2 = cargo_test(["--no-default-features"])
+    if not (ok and ok2):
+        print(rid, "suite fails with the refactoring: not archived")
+        return 1
+    d = os.path.join(VERIF, "refactors", rid)
+    os.makedirs(d, exist_ok=True)
+    shutil.copy2(patch, os.path.join(d, "patch.diff"))
+    meta = {"id": rid, "source": "independent sub-agent asked for behaviour-preserving edits",
+            "argument": open(note).read().strip() if os.path.exists(note) else "", "suite_passes": True}
+    alarms = run_all_checks_on_scratch()
+    meta["alarms"] = alarms
+    with open(os.path.join(d, "meta.json"), "w") as fh:
+        json.dump(meta, fh, indent=1)
+    print(rid, "QUIET" if not alarms else "ALARM %s" % alarms)
+    return 0
+
+
+def run_all_checks_on_scratch():
+    det = {}
+    for prop in ALL:
+        c = subprocess.run([sys.executable, "-c",
+                            "import sys; sys.path.insert(0,%r); sys.setrecursionlimit(20000)\n"
+                            "from twlint import facts as F; F.REPO=%r\n"
+                            "from twlint.runner import run_property\n"
+                            "mod,rep,cfgs,metas,wall=run_property(%r,'quick',%r)\n"
+                            "import json; print(json.dumps(sorted({v.rule+': '+v.message[:160] for v in rep.violations})))" % (VERIF, SCR, prop, SCR)],
+                           cwd=VERIF, capture_output=True, text=True)
+        try:
+            rules = json.loads(c.stdout.strip().splitlines()[-1])
+        except Exception:
+            rules = ["ERROR: " + c.stderr[-300:]]
+        if rules:
+            det[prop] = rules
+    return det
+
+
+def rerun_refactors(only=None):
+    rdir = os.path.join(VERIF, "refactors")
+    bad = []
+    for rid in sorted(os.listdir(rdir)):
+        if only and only not in rid:
+            continue
+        d = os.path.join(rdir, rid)
+        fresh()
+        if sh(["git", "apply", os.path.join(d, "patch.diff")]).returncode != 0:
+            print(rid, "PATCH NO LONGER APPLIES")
+            continue
+        alarms = run_all_checks_on_scratch()
+        meta = json.load(open(os.path.join(d, "meta.json")))
+        meta["alarms"] = alarms
+        json.dump(meta, open(os.path.join(d, "meta.json"), "w"), indent=1)
+        print(rid, "QUIET" if not alarms else "ALARM %s" % {k: [x[:90] for x in v] for k, v in alarms.items()})
+        if alarms:
+            bad.append(rid)
+    print("\n%d refactorings raise an alarm: %s" % (len(bad), bad))
+
+
 if __name__ == "__main__":
-    if len(sys.argv) >= 5 and sys.argv[1] == "import":
+    if len(sys.argv) >= 5 and sys.argv[1] == "refactor":
+        sys.exit(do_refactor(sys.argv[2], sys.argv[3], sys.argv[4]))
+    elif len(sys.argv) >= 2 and sys.argv[1] == "run-refactors":
+        rerun_refactors(sys.argv[2] if len(sys.argv) > 2 else None)
+    elif len(sys.argv) >= 5 and sys.argv[1] == "import":
         sys.exit(do_import(sys.argv[2], sys.argv[3], sys.argv[4]))
     elif len(sys.argv) >= 2 and sys.argv[1] == "run":
         run_checks(sys.argv[2] if len(sys.argv) > 2 else None)
